@@ -176,7 +176,9 @@ FOR ALL explicitly includes and (M10) a change that breaks the property only whe
 of the emulator meet (an interrupt next to the operation, pause / resume, a host message in the same poll,
 a sync threshold, the loader's layout, print / log flags, two peripherals at once).  {s5['n']} changes;
 **{s5['own']} are reported by the property's own quick check, {s5['missed_first']} of them only after a strengthening**;
-{s5['notrep']} not reported (recorded as limits, §9); {s5['notviol']} judged not to violate the property as stated.
+{s5['notrep']} is not reported by its own property's check (C01-M10: an unwind in run()'s trace line, reported by C15's check after
+a strengthening); {s5['notviol']} judged not to violate the property as stated (C09-M10: a register moved by an instruction that ends in
+an access error).
 
 {HEAD}
 """ + "\n".join(r5) + "\n")
